@@ -69,7 +69,7 @@ def playback_test(harness_fn, vals):
 def hunt(crate, r, ctx):
     part = crate.part
     h = r.harness
-    modes = [("grid", True, True), ("full", False, False)] if h.engine == "e2" else [("full", False, False)]
+    modes = [("grid", True, h.tolerant), ("full", False, False)] if h.engine == "e2" else [("full", False, False)]
     budget = int(os.environ.get("VK_HUNT_BUDGET", "120" if ctx.quick else "600"))
     why = []
     pretty = crate.meta[h.name][3]
